@@ -114,6 +114,7 @@ def replay_edges(ck, edges_path, label, shards=NSHARDS):
                 ck.drift.append({"why": "agent wire message (C16)", "detail": r.get("detail")})
             elif t == "toolerror":
                 raise vlib.ToolError(f"replayer: {r.get('detail')}")
+        os.remove(out)
     summ["edges"] = summ["stats"].get("edges", 0)
     summ["skipped"] = summ["stats"].get("skipped_edges", 0)
     return summ
